@@ -129,6 +129,66 @@ def test_known_finding_matching():
     assert engine.match_known(known, "Y", {"harness": "h", "case": 1, "diff_class": "c1", "config": {}}) is None
 
 
+def test_known_finding_case_does_not_match_when_the_signature_differs():
+    # (a seeded change was once masked because the witness text of a finding equalled the shortest failing input of
+    # a different failure)
+    from mc import engine
+    known = [{"property": "X", "id": "k", "status": "open", "harness": "h", "case": "doc",
+              "signature": {"diff_class": "not-recovered:utf-16le"}}]
+    assert engine.match_known(known, "X", {"harness": "h", "case": "doc", "diff_class": "not-recovered", "config": {}}) is None
+    assert engine.match_known(known, "X", {"harness": "h", "case": "other", "diff_class": "not-recovered:utf-16le", "config": {}})["id"] == "k"
+
+
+def _looping_step(word):
+    if word == (1, 0):
+        while True:
+            pass
+    return (word[-1:] if word else (), "o", None)
+
+
+def test_a_step_that_does_not_terminate_is_reported_not_hung():
+    from mc import engine
+    old = engine.STEP_LIMIT
+    engine.STEP_LIMIT = 0.5
+    try:
+        r = engine.guarded_step(_looping_step, None, (1, 0))
+        assert r[0] == ("nontermination",) and r[2].diff_class == "nontermination" and r[2].case == [1, 0]
+        assert engine.guarded_step(_looping_step, None, (0, 1))[2] is None
+        # nested limits: leaving the inner one re-arms the outer one
+        try:
+            with engine.time_limit(0.6):
+                with engine.time_limit(5):
+                    pass
+                while True:
+                    pass
+            raise AssertionError("outer limit lost")
+        except engine.StepTimeout:
+            pass
+    finally:
+        engine.STEP_LIMIT = old
+
+
+def test_prescan_reference_edge_cases_found_in_wave_3():
+    assert prescan.prescan(b"<<meta charset=koi8-r>") == "koi8-r"
+    assert prescan.prescan(b"<meta/charset=koi8-r>") == "koi8-r"
+    assert prescan.prescan(b"<metax <meta charset=koi8-r>") is None
+    assert prescan.prescan(b"</>x<meta charset=koi8-r>") == "koi8-r"
+    assert prescan.prescan(b"<a<meta charset=koi8-r>") is None
+    assert prescan.prescan(b"<meta charset=koi8-r ") is None
+    assert prescan.prescan(b"<!-- > <meta charset=koi8-r> -->") is None
+
+
+def test_quirks_mode_reference():
+    q = rtb.TreeBuilder.quirks_mode
+    assert q(("DOCTYPE", "html", None, None, False)) == "no-quirks"
+    assert q(("DOCTYPE", "html", "-//W3C//DTD HTML 4.01 Transitional//EN", None, False)) == "quirks"
+    assert q(("DOCTYPE", "html", "-//W3C//DTD HTML 4.01 Transitional//EN", "", False)) == "limited-quirks"
+    assert q(("DOCTYPE", "html", "-//W3C//DTD XHTML 1.0 Frameset//EN", None, False)) == "limited-quirks"
+    assert q(("DOCTYPE", "html", "-//W3C//DTD HTML 3.2//EN", None, False)) == "quirks"
+    assert q(("DOCTYPE", "html", None, "http://www.ibm.com/data/dtd/v11/ibmxhtml1-transitional.dtd", False)) == "quirks"
+    assert q(("DOCTYPE", "htm", None, None, False)) == "quirks"
+
+
 def test_thread_scheduler_finds_a_lost_update():
     from mc import sched
     repo = os.path.join(HERE, "tests", "fake_repo")
